@@ -5,17 +5,19 @@ BOTH = [dict(variant="asan"), dict(variant="rel")]
 VALGRIND = ["valgrind", "-q", "--error-exitcode=43", "--exit-on-first-error=yes", "--undef-value-errors=no", "--leak-check=no", "--num-callers=20"]
 
 
-def with_memcheck(tier, subset, nsh=64):
-    """thorough tier: the quick workload, thinned to `subset` of `nsh` shards, under valgrind memcheck"""
+def with_memcheck(tier, quick_subset, thorough_subset, nsh=64):
+    """the quick workload, thinned to a subset of `nsh` shards, also runs under valgrind memcheck (byte-exact addressability)"""
     jobs = [dict(variant="asan"), dict(variant="rel")]
-    if tier == "thorough":
-        jobs.append(dict(variant="memcheck", wrapper=VALGRIND, harness_tier="quick", shards=nsh, shard_subset=subset, budget_s=5400))
+    subset = thorough_subset if tier == "thorough" else quick_subset
+    jobs.append(dict(variant="memcheck", wrapper=VALGRIND, harness_tier="quick", shards=nsh, shard_subset=subset,
+                     budget_s=5400 if tier == "thorough" else 600))
     return jobs
+
 
 PROPS = {}
 
 PROPS["C13"] = dict(
-    jobs=lambda tier: with_memcheck(tier, list(range(0, 64, 2))),
+    jobs=lambda tier: with_memcheck(tier, list(range(1, 64, 4)), list(range(64))),
     rule="one case = (kernel, size, operand count or 'all constants', destination alignment, source alignment); "
          "exhaustive over the stated grid; non-trivial = size>0 and at least one operand; distinct by construction. "
          "The same grid runs on the ASan/UBSan build (exact-size heap blocks: any access beyond `size` is a red-zone hit) "
@@ -122,7 +124,7 @@ PROPS["C11"] = dict(
     assumptions=_codec_assume,
 )
 PROPS["C07"] = dict(
-    jobs=lambda tier: with_memcheck(tier, list(range(0, 64, 4))),
+    jobs=lambda tier: with_memcheck(tier, list(range(3, 64, 4)), list(range(0, 64, 2))),
     rule="one case = one encoder or decoder session history (all codecs, both APIs, all callback modes, early release, both roles) with every application buffer exact-size: "
          "ASan/UBSan build = heap blocks of exactly L bytes at every alignment, before/after checksums; -O3 build = each buffer flush against a PROT_NONE page, received symbols and encoder sources PROT_READ, canary before. all cases non-trivial",
     budget_s={"quick": 900, "thorough": 7200},
